@@ -207,7 +207,40 @@ fn apply(text: &str, name: &str, g: &mut Genes) -> Option<String> {
             let vstart = text.len() - after.len();
             let vend = text[vstart + 1..].find(q)? + vstart + 2;
             let dup = if g.chance(1, 2) { format!(" {}=\"\"", aname) } else { format!(" {}='x'", aname) };
-            Some(format!("{}{}{}", &text[..vend], dup, &text[vend..]))
+            // right after the original, or separated from it: at the end of the tag, or in front of every attribute
+            match g.pick(3) {
+                0 => Some(format!("{}{}{}", &text[..vend], dup, &text[vend..])),
+                1 => {
+                    // end of the tag: the next '>' that is not inside a quoted value
+                    let mut i = vend;
+                    let b = text.as_bytes();
+                    let mut quote: Option<u8> = None;
+                    while i < b.len() {
+                        match (quote, b[i]) {
+                            (Some(q), c) if c == q => quote = None,
+                            (Some(_), _) => {}
+                            (None, b'"') | (None, b'\'') => quote = Some(b[i]),
+                            (None, b'>') => break,
+                            (None, b'/') if i + 1 < b.len() && b[i + 1] == b'>' => break,
+                            _ => {}
+                        }
+                        i += 1;
+                    }
+                    if i >= b.len() {
+                        return None;
+                    }
+                    Some(format!("{}{}{}", &text[..i], dup, &text[i..]))
+                }
+                _ => {
+                    // in front of the first attribute of the tag: right after the element name
+                    let lt = text[..ns].rfind('<')?;
+                    let name_end = text[lt + 1..].find(|c: char| c.is_whitespace() || c == '>' || c == '/')? + lt + 1;
+                    if name_end > ns {
+                        return None;
+                    }
+                    Some(format!("{}{}{}", &text[..name_end], dup, &text[name_end..]))
+                }
+            }
         }
         "lt-in-attr" | "amp-in-attr" => {
             let q = if g.chance(1, 2) { "\"" } else { "'" };
@@ -344,7 +377,8 @@ fn apply(text: &str, name: &str, g: &mut Genes) -> Option<String> {
             let (rs, _) = root_span(text)?;
             if text.contains("<!DOCTYPE") {
                 let i = text.find('[')? + 1;
-                let decl = ["<!ENTITY rec \"&rec;\">", "<!ENTITY rec \"a&rec2;\"><!ENTITY rec2 \"&rec;b\">"][g.pick(2)];
+                // direct, mutual, and a cycle that the referenced entity only leads into
+                let decl = ["<!ENTITY rec \"&rec;\">", "<!ENTITY rec \"a&rec2;\"><!ENTITY rec2 \"&rec;b\">", "<!ENTITY rec \"x&r1;\"><!ENTITY r1 \"&r2;\"><!ENTITY r2 \"&r3;y\"><!ENTITY r3 \"&r1;\">"][g.pick(3)];
                 let t = format!("{}{}{}", &text[..i], decl, &text[i..]);
                 let (rs2, re2) = root_span(&t)?;
                 let cands: Vec<usize> = occurrences(&t[rs2..re2], ">").into_iter().map(|i| rs2 + i + 1).filter(|&i| i < re2).collect();
